@@ -206,6 +206,7 @@ class PrecipitateModel (PrecipitateBase):
         #All compositions from the PSD bounds will be set to the compositions just above RdrivingForceLimit
         #This is just to allow for particles to dissolve instead of pile up in the smallest bin
         self.RdrivingForceIndex = np.zeros(len(self.phases), dtype=np.int32)
+        self._lookupTemperature = T
 
         #Keep as separate arrays so that number of PSD classes can change within precipitate phases
         self.PSDXalpha = []
@@ -540,12 +541,12 @@ class PrecipitateModel (PrecipitateBase):
         #Update equilibrium interfacial compositions
         #This will be override if _createLookupBinary is called
         T = Y.temperature[0]
-        self.dTemp += T - self.pData.temperature[self.pData.n]
+        #Temperature change since the lookup table was last created
+        self.dTemp = T - self._lookupTemperature
         if np.abs(self.dTemp) > self.constraints.maxTempChange:
             xEqAlpha, xEqBeta = self._createLookupBinary(T)
         else:
             xEqAlpha, xEqBeta = np.array([self.pData.xEqAlpha[self.pData.n]]), np.array([self.pData.xEqBeta[self.pData.n]])
-            self.dTemp = 0
         Y.xEqAlpha = xEqAlpha
         Y.xEqBeta = xEqBeta
         
